@@ -46,10 +46,10 @@ Qed.
 (* C26_eq_reference: the response of the executor model is the response of the reference executor *)
 Lemma c26_eq_reference : forall s doc values w d vars root impls,
   execute_prepare s doc values = EpReady d vars root impls ->
-  sch_exec_wf s = true -> known_covariant s d = false -> rd_alias_consistent d = true -> rd_acyclic d = true ->
+  sch_exec_wf s = true -> known_covariant s d = false -> rd_mergeable s d -> rd_acyclic d = true ->
   fst (execute_request s doc values w) = ref_execute s doc values w.
 Proof.
-  intros s doc values w d vars root impls Hp Hwf Hcov Halias Hacyc.
+  intros s doc values w d vars root impls Hp Hwf Hcov Hmg Hacyc.
   destruct (sch_exec_wf_spec s Hwf) as [Hu Hm]. pose proof (sch_exec_wf_string s Hwf) as Hstr.
   destruct (root_typed _ _ _ _ _ _ _ Hp) as [Hroot Hfr]. destruct (prepare_inv _ _ _ _ _ _ _ Hp) as (_ & _ & Hg).
   unfold execute_request, ref_execute. rewrite Hp.
@@ -61,25 +61,39 @@ Proof.
   set (e := {| rf_s := s; rf_frags := rd_frags d; rf_vars := vars; rf_w := w; rf_cx := ex_cx_for s d vars |}).
   unfold rf_fuel_for.
   (* the reference does not run out of fuel *)
-  destruct (ref_fuel_all s d vars w Hu Hm Hcov Halias Hfr (ex_fuel_for d)) as (Hrs & _).
-  pose proof (Hrs root impls 0%N (rd_sels d) _ Hg (root_sels_ok d Hacyc) Hroot (fuel_bound d)) as Hoof.
+  destruct (ref_fuel_all s d vars w Hu Hm Hcov Hfr (ex_fuel_for d)) as (Hrs & _).
+  pose proof (Hrs root impls 0%N (rd_sels d) _ Hg (root_sels_ok d Hacyc) Hroot Hmg (fuel_bound d)) as Hoof.
   fold e in Hoof. rewrite rt_oof_obj, Hoof.
   (* both agree *)
-  destruct (sim_all s d vars w Hu Hm Hstr Hcov Halias Hfr (ex_fuel_for d)) as (Hss & _).
-  destruct (Hss (ex_fuel_for d) [] root impls 0%N (rd_sels d) [] [] res st log Hg Hroot E Hnf Hoof) as [A1 A2].
+  destruct (sim_all s d vars w Hu Hm Hstr Hcov Hfr (ex_fuel_for d)) as (Hss & _).
+  destruct (Hss (ex_fuel_for d) [] root impls 0%N (rd_sels d) [] [] res st log Hg Hroot Hmg E Hnf Hoof) as [A1 A2].
   fold e in A1, A2. rewrite rf_prop_obj. destruct (rfp_fields [] (rf_selset (ex_fuel_for d) e root 0 (rd_sels d)) []) as [r es].
   cbn [fst snd] in A1, A2. subst r st. rewrite app_nil_r.
   destruct res as [m| |]; cbn [xr_opt ex_outcome]; [| |contradiction]; now rewrite rev_involutive.
 Qed.
 
+(* the decidable sufficient condition for rd_mergeable *)
+Lemma alias_consistent_mergeable s d : rd_alias_consistent d = true -> rd_acyclic d = true -> rd_mergeable s d.
+Proof.
+  intros Ha Hacyc. destruct (root_sels_ok d Hacyc) as [_ H]. exact (alias_mergeable s d Ha _ _ H).
+Qed.
+
+Lemma c26_eq_reference_alias : forall s doc values w d vars root impls,
+  execute_prepare s doc values = EpReady d vars root impls ->
+  sch_exec_wf s = true -> known_covariant s d = false -> rd_alias_consistent d = true -> rd_acyclic d = true ->
+  fst (execute_request s doc values w) = ref_execute s doc values w.
+Proof.
+  intros s doc values w d vars root impls Hp Hwf Hcov Halias Hacyc.
+  eapply c26_eq_reference; eauto using alias_consistent_mergeable.
+Qed.
+
 (* a request with a response: data and errors are the reference's *)
 Lemma c26_eq_reference_response : forall s doc values w d vars root impls r log,
   execute_prepare s doc values = EpReady d vars root impls ->
-  sch_exec_wf s = true -> known_covariant s d = false -> rd_alias_consistent d = true -> rd_acyclic d = true ->
+  sch_exec_wf s = true -> known_covariant s d = false -> rd_mergeable s d -> rd_acyclic d = true ->
   execute_request s doc values w = (EoResponse r, log) ->
-  exists r', ref_execute s doc values w = EoResponse r' /\ er_data r' = er_data r /\ er_errors r' = er_errors r.
+  ref_execute s doc values w = EoResponse r.
 Proof.
-  intros s doc values w d vars root impls r log Hp Hwf Hcov Halias Hacyc H.
-  pose proof (c26_eq_reference s doc values w d vars root impls Hp Hwf Hcov Halias Hacyc) as He. rewrite H in He. cbn [fst] in He.
-  exists r. now rewrite <- He.
+  intros s doc values w d vars root impls r log Hp Hwf Hcov Hmg Hacyc H.
+  pose proof (c26_eq_reference s doc values w d vars root impls Hp Hwf Hcov Hmg Hacyc) as He. rewrite H in He. now cbn [fst] in He.
 Qed.
